@@ -3,6 +3,7 @@
 #![allow(clippy::all)]
 #![allow(dead_code, unused_features, unused_imports)]
 //! vh — model-checking harness for rust-osdev/x86_64 (see /verif/DESIGN.md).
+mod arch;
 mod b64;
 mod out;
 mod simcpu;
@@ -11,6 +12,14 @@ mod c04;
 mod c05;
 mod c06;
 mod c07;
+mod c08;
+mod c12;
+mod c12load;
+mod c13;
+mod c13iret;
+mod c14;
+mod c15;
+mod c19;
 
 pub struct Args {
     pub prop: String,
@@ -50,6 +59,12 @@ fn main() {
         "C05" => c05::run(&a),
         "C06" => c06::run(&a),
         "C07" => c07::run(&a),
+        "C08" => c08::run(&a),
+        "C12" => c12::run(&a),
+        "C13" => c13::run(&a),
+        "C14" => c14::run(&a),
+        "C15" => c15::run(&a),
+        "C19" => c19::run(&a),
         "profile" => println!("{} overflow_checks={}", out::profile(), out::overflow_checks_on()),
         p => {
             eprintln!("unknown property {p}");
